@@ -569,7 +569,8 @@ theorem not_C08_full : ¬ C08_full := by
 example : errBytes (apiWire 200 (str "OK") true [] (.length 5) (str "D") { data := str "abc" } none) = some [] := by
   decide +kernel
 -- … and on the Streaming path (declared 8193 > PROBE_MAX): `Err` after the head and the 3 bytes
-example : errBytes (apiWire 200 (str "OK") true [] (.length 8193) (str "D") { data := str "abc" } none)
+example : errBytes (writeResponse Thresholds.frozen StdPolicy.real 200 (str "OK") (buildHeaders true [] (.length 8193))
+      (fieldLine (str "date", str "D")) { data := str "abc" } none)
     = some (str "HTTP/1.1 200 OK\r\ncontent-length: 8193\r\n\r\nabc") := by decide +kernel
 
 end Khttp.Printer
